@@ -63,7 +63,8 @@ Drift(c, s) == IF c.kind = "hist" THEN HistDrift(c, s)
                ELSE IF c.kind = "pass" THEN PassDrift(c)
                ELSE IF c.kind = "lookup" THEN C17LookupDrift(c)
                ELSE IF c.kind = "cnf" THEN C05CnfDrift(c) \cup C05EncoderDrift(c)
-               ELSE IF c.kind = "arith" THEN ArithDrift(c) ELSE {}
+               ELSE IF c.kind = "arith" THEN ArithDrift(c)
+               ELSE IF c.kind = "minimize" THEN C04ConeDrift(c) ELSE {}
 
 (* The cases are cut into NCH contiguous chains; each chain is an independent linear
    behaviour (its own initial state), so that one JVM with several workers judges them in
